@@ -14,7 +14,7 @@ import (
 )
 
 type op struct {
-	kind byte // S L D N
+	kind byte // S L D N, T = Store of a value that is constant per key (re-storing an equal value)
 	key  string
 }
 
@@ -22,10 +22,10 @@ func (o op) String() string {
 	if o.kind == 'N' {
 		return "Len"
 	}
-	return map[byte]string{'S': "Store", 'L': "Load", 'D': "Delete"}[o.kind] + "(" + o.key + ")"
+	return map[byte]string{'S': "Store", 'L': "Load", 'D': "Delete", 'T': "StoreSame"}[o.kind] + "(" + o.key + ")"
 }
 
-func alphabet(c int) []op {
+func alphabet(c int, same bool) []op {
 	nk := c + 1
 	if nk < 3 {
 		nk = 3
@@ -42,6 +42,11 @@ func alphabet(c int) []op {
 		ops = append(ops, op{'D', k})
 	}
 	ops = append(ops, op{'N', ""})
+	if same {
+		for _, k := range keys {
+			ops = append(ops, op{'T', k})
+		}
+	}
 	return ops
 }
 
@@ -51,9 +56,13 @@ type config struct {
 	prefil int  // number of entries pre-stored (keys from the alphabet) before the sequence
 	cb     bool // callback registered
 	depth  int
+	same   bool // alphabet additionally holds StoreSame(k): the value stored is constant per key
 }
 
 func (cf config) String() string {
+	if cf.same {
+		return fmt.Sprintf("cap=%d warm=%d prefill=%d cb=%v depth=%d +StoreSame", cf.cap, cf.warm, cf.prefil, cf.cb, cf.depth)
+	}
 	return fmt.Sprintf("cap=%d warm=%d prefill=%d cb=%v depth=%d", cf.cap, cf.warm, cf.prefil, cf.cb, cf.depth)
 }
 
@@ -113,6 +122,10 @@ func runSeq(cf config, ops []op, seq []int, c *runner.Ctx) (sig, detail string, 
 		case 'S':
 			lru.Store(o.key, step)
 			m.Store(o.key, step)
+			trace = append(trace, o.String())
+		case 'T':
+			lru.Store(o.key, "same-"+o.key)
+			m.Store(o.key, "same-"+o.key)
 			trace = append(trace, o.String())
 		case 'L':
 			v, ok := lru.Load(o.key)
@@ -269,6 +282,17 @@ func run(c *runner.Ctx) {
 			}
 		}
 	}
+	// re-storing an equal value: alphabet + StoreSame(k), all capacities, empty and pre-filled starts
+	for cp := 1; cp <= 3; cp++ {
+		d := 5
+		if c.Thorough() {
+			d = 6
+		}
+		if cp == 3 {
+			d--
+		}
+		cfgs = append(cfgs, config{cap: cp, cb: true, depth: d, same: true}, config{cap: cp, prefil: cp, cb: true, depth: d - 1, same: true})
+	}
 	// larger capacity with a longer warm-up crossing the rebuild threshold several times
 	cfgs = append(cfgs, config{cap: 8, warm: 40, prefil: 8, cb: true, depth: 3})
 	if c.Thorough() {
@@ -276,7 +300,7 @@ func run(c *runner.Ctx) {
 	}
 
 	for _, cf := range cfgs {
-		ops := alphabet(cf.cap)
+		ops := alphabet(cf.cap, cf.same)
 		c.Space(cf.String())
 		n := len(ops)
 		seq := make([]int, cf.depth)
@@ -319,7 +343,7 @@ func main() {
 	runner.Main(runner.Config{
 		Property:  "C09",
 		Technique: "explicit-state bounded-exhaustive exploration of all operation sequences on the real LRUCache, lock-step against a reference model",
-		Rule: "all sequences of length d over {Store,Load,Delete}(k in c+1 colliding keys)+Len on valid.NewLRU(c), c=0..4 (+8), from empty, pre-filled and warm-up states around the map-rebuild threshold, " +
+		Rule: "all sequences of length d over {Store (fresh value = step number),Load,Delete}(k in c+1 colliding keys)+Len on valid.NewLRU(c), c=0..4 (+8), and for c=1..3 additionally StoreSame(k) (a value that is constant per key, so re-storing an equal value is covered), from empty, pre-filled and warm-up states around the map-rebuild threshold, " +
 			"with and without removal callback; every step compared with a slice-based LRU model; non-trivial = sequences containing an eviction whose victim differs between LRU and FIFO order",
 		Assumptions: []string{"reference model internal/lrumodel is the specification of C09", "keys are hashable strings; callbacks do not re-enter the cache"},
 		Run:         run,
